@@ -72,6 +72,28 @@ CHECKS["C12"] = dict(
     note="Trusted: ref/rk.py order conditions (self-tested against empirical convergence orders in the thorough tier), Fraction "
          "arithmetic; coefficient tolerance 1e-9 (tableaux carry 10-16 digits); known findings: dirk34 tableau, dirk_step Newton atol.")
 
+CHECKS["C05"] = dict(
+    category="model_checking", design_ref="DESIGN.md §3 C05",
+    technique="bounded-exhaustive enumeration of nested knot-vector pairs (all sub-multisets of a candidate insertion set) against "
+              "exact Boehm insertion in rationals; explicit-state enumeration of all hierarchical states of the C04 rows and of "
+              "ancestor/descendant pairs (all edges of the state graph plus 2-3 call chains) with matrix identities on unit vectors",
+    text="prolongation/knot_insertion are compared entrywise with exact knot insertion for every knot vector of the alphabet and "
+         "every set of <=2 (quick) / 3 (thorough) insertions; for every reachable hierarchical state represent_fine(lv), HB/THB "
+         "virtual-hierarchy prolongators, level-wise evaluation (values, gradients, Hessians, points) on every unit vector and "
+         "boundary maps are checked, and prolongate_to on every refinement edge.",
+    note="Trusted: ref/bsp.py exact insertion, ref/hmodel.py; uniform dyadic hierarchical meshes (C04 rows), degrees 1-3; "
+         "known finding: THB virtual-hierarchy prolongators on >=3 levels.")
+CHECKS["C16"] = dict(
+    category="model_checking", design_ref="DESIGN.md §3 C16",
+    technique="bounded-exhaustive enumeration of operand kind x shape tuples x argument forms x transposes/adjoints with small "
+              "distinct integer payloads; exact == comparison with dense numpy definitions on every unit vector",
+    text="Kronecker, block, block-diagonal, diagonal, identity, null and subspace operators, apply_tprod/modek_tprod/"
+         "apply_kronecker (None placeholders, trailing axes), CSR row views and the solver factories are enumerated over all "
+         "small operand tuples (1-3 factors quick, 4 thorough) and compared exactly with np.kron/np.block definitions; "
+         "solvers: B @ solve(e_j) == e_j for every unit vector.",
+    note="Trusted: numpy dense algebra (ref/linops.py); integer payloads make float arithmetic exact; pyMKL absent so sparse "
+         "make_solver runs through SuperLU only; operand shapes in {1,2,3}^2.")
+
 NOT_YET = {}
 
 
